@@ -46,6 +46,8 @@ pub struct HistCfg {
   pub collect_digests: bool,
   /// C16: look for the history with this hash (to write a replayable artefact for a cross-process mismatch)
   pub find_path_hash: Option<u64>,
+  /// failure flags also make the stamp of a declared write fail (C05/C06 group)
+  pub stamp_fail: bool,
 }
 
 /// Fixed-key hash (no addresses, no random seeds): used for trace digests only.
@@ -181,7 +183,10 @@ fn enabled_events(prog: &Prog, cfg: &HistCfg, node: &NodeRec) -> Vec<Event> {
     }
     for rep in reports {
       evs.push(Event::BottomUp { pre: vec![], reported: rep.clone(), then: vec![], builds: 1 });
-      if cfg.bu_twice { evs.push(Event::BottomUp { pre: vec![], reported: rep.clone(), then: vec![], builds: 2 }); }
+      if cfg.bu_twice {
+        evs.push(Event::BottomUp { pre: vec![], reported: rep.clone(), then: vec![], builds: 2 });
+        if rep.len() >= 2 { evs.push(Event::BottomUp { pre: vec![], reported: rep.clone(), then: vec![], builds: 3 }); }
+      }
       if cfg.bu_then {
         for t in 0..prog.n_tasks() as Tid { evs.push(Event::BottomUp { pre: vec![], reported: rep.clone(), then: vec![t], builds: 1 }); }
       }
@@ -267,6 +272,7 @@ fn unrelated_prelude() {
 
 pub fn judge_path(prog: &Prog, class: Class, cfg: &HistCfg, path: &[PEvent], crashes_used: usize) -> Judged {
   if cfg.prop == Prop::C16 { unrelated_prelude(); }
+  crate::world::set_stamp_failures(cfg.stamp_fail);
   set_program(Some(prog.clone()));
   let mut live = Live::new();
   let mut an = Analyzer::new(prog, class, cfg.prop);
@@ -333,7 +339,19 @@ pub fn judge_path(prog: &Prog, class: Class, cfg: &HistCfg, path: &[PEvent], cra
         // (tasks entered by the probe that were not known before it are new tasks required by a re-executed stale
         // task, not stale tasks themselves)
         let stale: Vec<Tid> = entered.iter().copied().filter(|t| known.contains(t)).collect();
-        let f1 = !stale.is_empty() && stale.iter().all(|t| an.stale_before_bottom_up(*t, rep_mask));
+        // A task that was re-executed DURING the build and then required such a task got its stale output handed
+        // out: it is stale as a consequence (its requires as recorded after the build are followed as well).
+        let f1_task = |t: Tid| -> bool {
+          if an.stale_before_bottom_up(t, rep_mask) { return true; }
+          let mut m = an.reach(t);
+          while m != 0 {
+            let y = m.trailing_zeros() as Tid;
+            m &= m - 1;
+            if an.stale_before_bottom_up(y, rep_mask) { return true; }
+          }
+          false
+        };
+        let f1 = !stale.is_empty() && stale.iter().all(|t| f1_task(*t));
         let _ = pre_mixed;
         for (oracle, what) in problems {
           let key = if f1 { "C03/stale-before-bottom-up" } else { "" };
@@ -473,7 +491,8 @@ pub fn run_programs(rep: &mut Report, cfg: &HistCfg, programs: Vec<(Prog, Class)
   install_panic_hook();
   std::thread::scope(|scope| {
     for _ in 0..threads {
-      scope.spawn(|| {
+      // generous stacks: a recursion that escapes both harness bounds must not take the process down
+      std::thread::Builder::new().stack_size(256 << 20).spawn_scoped(scope, || {
         let mut stats = Stats::default();
         loop {
           let i = next.fetch_add(1, Ordering::SeqCst);
@@ -489,7 +508,7 @@ pub fn run_programs(rep: &mut Report, cfg: &HistCfg, programs: Vec<(Prog, Class)
           }
         }
         total.lock().unwrap().merge(&stats);
-      });
+      }).expect("cannot spawn worker thread");
     }
   });
   let mut vs = violations.into_inner().unwrap();
